@@ -763,6 +763,13 @@ def domain_mutations(db: ProgramDB, fn: FuncInfo) -> List[Tuple[ast.AST, str]]:
             for t in n.targets:
                 if isinstance(t, ast.Subscript) and is_dom(t.value):
                     bad.append((n, f"`{unparse(n)[:70]}` deletes from the supplied domain"))
+        if isinstance(n, (ast.Assign, ast.AugAssign)):
+            # re-binding an attribute of a user-supplied From(...) object: the same From handed to a second variable
+            # then carries the first variable's filtered, partly consumed iterator
+            for t in (n.targets if isinstance(n, ast.Assign) else [n.target]):
+                if isinstance(t, ast.Attribute) and t.attr == "domain" and isinstance(t.value, ast.Name) \
+                        and t.value.id in fn.params and not (fn.cls is not None and fn.cls.name == "From"):
+                    bad.append((n, f"`{unparse(n)[:70]}` modifies the From(...) object supplied by the caller"))
         elif isinstance(n, ast.Call) and isinstance(n.func, ast.Name) and n.func.id in ("setattr", "delattr") and n.args \
                 and is_dom(n.args[0]):
             bad.append((n, f"`{unparse(n)[:70]}` sets an attribute on the supplied domain"))
